@@ -108,6 +108,13 @@ func (c *rollCtr) elemAccess(in ssa.Instruction) bool {
 }
 
 func runC17(p *Prog, r *Report) {
+	// R7: the rebalancer feeds its (unsynchronised) meters under its own mutex only (shared with C09.R1); R8: the first records of a new status code are not lost: get-or-create of its counter is re-checked under the write lock (shared with C09.R7)
+	if rbT := p.Named("roundrobin", "Rebalancer"); rbT != nil {
+		r.Floor("C17.R7", c09Races(p, r, "C17.R7", []*types.Named{rbT}), 1, "written shared locations reachable from the rebalancer")
+	}
+	if rt := p.Named("memmetrics", "RTMetrics"); rt != nil {
+		r.Floor("C17.R8", c09GetOrCreate(p, r, "C17.R8", []*types.Named{rt}), 1, "get-or-create insertions of RTMetrics")
+	}
 	// R6: increments made through RTMetrics are not lost: its counters are only touched under its locks (shared with C09.R1)
 	if rt := p.Named("memmetrics", "RTMetrics"); rt != nil {
 		r.Floor("C17.R6", c09Races(p, r, "C17.R6", []*types.Named{rt}), 8, "written shared locations of memmetrics.RTMetrics")
@@ -369,10 +376,33 @@ func runC17(p *Prog, r *Report) {
 		n++
 		r.Fn(FName(m))
 		var bad ssa.Instruction
-		seen := Reach(m, nil, clean.Is, nil)
+		// receiver-sensitive: the clean-up of ANOTHER counter (o.Count() in Append) says nothing about this one
+		onSelf := func(in ssa.Instruction) (callee *ssa.Function, self bool) {
+			ci, ok := in.(ssa.CallInstruction)
+			if !ok {
+				return nil, false
+			}
+			f := ci.Common().StaticCallee()
+			if f == nil || recvNamed(f) != c.typ || len(ci.Common().Args) == 0 {
+				return f, false
+			}
+			return f, stripConv(ci.Common().Args[0]) == ssa.Value(m.Params[0])
+		}
+		cleanSelf := func(in ssa.Instruction) bool {
+			f, self := onSelf(in)
+			if f != nil && recvNamed(f) == c.typ {
+				return self && (f == c.cleanup || clean.Must(f))
+			}
+			return clean.Is(in)
+		}
+		seen := Reach(m, nil, cleanSelf, nil)
 		for in := range seen {
-			if clean.Is(in) {
+			if cleanSelf(in) {
 				continue
+			}
+			f, self := onSelf(in)
+			if f != nil && recvNamed(f) == c.typ && !self {
+				continue // a method of another counter: that counter's own obligation
 			}
 			if access.MayInstr(in) {
 				if bad == nil || in.Pos() < bad.Pos() {
@@ -480,6 +510,7 @@ func checkZeroGuardedDivisions(p *Prog, r *Report, fn *ssa.Function, rule string
 func mutantsC17() []Mutant {
 	f := "memmetrics/counter.go"
 	return []Mutant{
+		{Name: "append-skips-own-cleanup", File: "memmetrics/counter.go", Old: "\tc.Inc(int(o.Count()))\n", New: "\tc.incBucketValue(int(o.Count()))\n", Expect: "C17.R2"},
 		{Name: "cleanup-skips-newest-slot", File: f, Old: "\tfor i := 0; i < len(c.values); i++ {", New: "\tfor i := 1; i < len(c.values); i++ {", Expect: "C17.R4"},
 		{Name: "cleanup-stops-short", File: f, Old: "\tfor i := 0; i < len(c.values); i++ {", New: "\tfor i := 0; i < len(c.values)-1; i++ {", Expect: "C17.R4"},
 		{Name: "checkpoints-every-other-slot", File: f, Old: "checkPoint := now.Add(time.Duration(-1*i) * c.resolution)", New: "checkPoint := now.Add(time.Duration(-2*i) * c.resolution)", Expect: "C17.R4"},
